@@ -7,7 +7,7 @@ run (`tools/extract.py:write_footprint`): each assignment, deletion, item store 
 call, outside `__init__` and `register*`, whose target is an attribute or item of `self`/`cls`, of a
 module-level name (or a name declared `global`), of a parameter, or of a local that aliases one of
 those (direct alias, attribute/item chain without a call, or loop variable over one); plus
-`setattr` calls and memoising decorators. `cls` is the enclosing class for `self`/`cls` writes,
+`setattr` calls, memoising decorators and mutable default arguments (one object shared by every call that omits the argument). `cls` is the enclosing class for `self`/`cls` writes,
 `<module>` for module-level objects, and the parameter's annotation as written for writes through a
 parameter.
 -/
